@@ -179,6 +179,7 @@ func checkC02(c *fw.Ctx) {
 
 	// 4. SignJSON merge
 	checkSignMerge(c, sign)
+	checkCarriedSignatures(c, sign)
 
 	// 4b. the canonical form both sides sign over orders members by their decoded names on every
 	// path (shared with C01.4/5)
@@ -329,5 +330,56 @@ func checkSignMerge(c *fw.Ctx, sign *ssa.Function) {
 		default:
 			c.Fail(rule, fmt.Sprintf("SignJSON sets only signatures/unsigned (found %q)", key), c.P.Pos(call.Pos()), "SignJSON writes an unexpected member into the signed object")
 		}
+	}
+}
+
+// checkCarriedSignatures (rule 4, continued): whatever routine of SignJSON's region copies the
+// decoded signatures into the map that is written back copies every entry: an entry written
+// under a condition on the signer's name, the key id or the signature itself (other than the
+// creation of the inner map when it is missing) drops somebody's earlier signature from the
+// re-signed object.
+func checkCarriedSignatures(c *fw.Ctx, sign *ssa.Function) {
+	rule := "4 merge"
+	construct := "earlier signatures are carried over unfiltered"
+	n := 0
+	bad := ""
+	for _, f := range fw.RegionOf(sign, nil) {
+		for _, b := range f.Blocks {
+			for _, ins := range b.Instrs {
+				mu, ok := ins.(*ssa.MapUpdate)
+				if !ok {
+					continue
+				}
+				// the value is an element of a pass over another map (a copy loop)
+				vs := fw.Sig(mu.Value)
+				if !strings.Contains(vs, "next(range(") {
+					continue
+				}
+				if _, isMake := mu.Value.(*ssa.MakeMap); isMake {
+					continue
+				}
+				n++
+				for _, s := range fw.CondStrings(b) {
+					t := strings.TrimPrefix(s, "!")
+					if strings.HasPrefix(t, "next(range(") && strings.HasSuffix(t, "#0") {
+						continue // loop machinery
+					}
+					if strings.HasSuffix(t, " == nil)") && !strings.Contains(t, "next(range(") {
+						continue // a map that has to be created first
+					}
+					if strings.Contains(t, "next(range(") {
+						bad = fmt.Sprintf("%s copies an entry only under %s (%s)", fw.FuncName(f), s, c.P.Pos(fw.InstrPos(mu)))
+					}
+				}
+			}
+		}
+	}
+	switch {
+	case bad != "":
+		c.Fail(rule, construct, c.P.Pos(sign.Pos()), bad+": a signature that does not meet the condition disappears from the object when somebody else signs it")
+	case n == 0:
+		c.Ok(rule, construct, c.P.Pos(sign.Pos()), "no copy loop: the decoded signatures object itself is written back")
+	default:
+		c.Ok(rule, construct, c.P.Pos(sign.Pos()), fmt.Sprintf("%d copy site(s), unconditional", n))
 	}
 }
